@@ -10,7 +10,11 @@
  * Reader semantics: a truncated header/record at the end of the file is a
  * clean EOF; a zero-type zero-length record or a checksum mismatch drops the
  * rest of the block; FULL / FIRST..LAST chains are returned, everything else
- * is reported to the reporter and skipped.
+ * is reported to the reporter and skipped.  As in LevelDB's log::Reader the
+ * on-disk type byte shares its number space with the reader's internal
+ * markers: a (checksum-valid) record of type 5 acts as kEof (the call returns
+ * "no record" without a report, the record is consumed) and type 6 as
+ * kBadRecord; the reference mirrors that documented-by-code behaviour.
  * Asserted per call: returned flag, record length and bytes == reference;
  * number of corruption reports and total dropped bytes == reference; record
  * slice lies inside the input or inside the scratch buffer. */
@@ -138,9 +142,9 @@ vp_ref_read(void) {
           return 1;
         }
       }
-    } else if (t == VP_T_EOF) {
+    } else if (t == VP_T_EOF || t == 5) {
       return 0;
-    } else if (t == VP_T_BAD) {
+    } else if (t == VP_T_BAD || t == 6) {
       if (in_frag) {
         vp_rreports++;
         vp_rdropped += slen;
